@@ -188,6 +188,7 @@ pub fn run(ctx: &mut Ctx) {
         for inp in inputs {
             let r = catch(|| verif::extract_client_random(&inp));
             let q = format!("c12 extract {}", hex(&inp));
+            begin_case(&q);
             match r {
                 Ok(r) => {
                     let a = fmt_extract(r.clone());
